@@ -2924,6 +2924,7 @@ def check(ctx):
     _rule6(model, rep)
     _rule7(ctx, rep)
     _rule8(ctx, rep)
+    _rule9(ctx, rep)
     return rep
 
 
@@ -2972,6 +2973,52 @@ def _rule8(ctx, rep):
                 'assigned in the reload step',
                 f'{fn.qname} assigns the live revision but is {"also reached from FSM.load" if root.qname in from_load else "not reached from FSM.reload"}: the switch must happen before load() rebuilds the crew',
             )
+
+
+def _rule9(ctx, rep):
+    """every listed hand hears the verdict (added after seeded change C11-8: Hand.notify called self.connectionLost(None),
+    which removes the hand from _workers - while farm.notify_all is iterating that very list with filter(); every second
+    waiting worker was skipped, got no abort and was forgotten by the following _workers.clear())"""
+    import ast as _ast
+
+    from ..util import norm as _norm, where as _where
+
+    prog, cg = ctx.prog, ctx.cg
+    W = 'dawgie.pl.farm._workers'
+    with rep.rule(
+        'R-C11-9',
+        'while farm.notify_all walks the idle list, nothing it calls per hand (Hand.notify and what that reaches) changes the idle list',
+        floor=1,
+        breaks='hands are skipped by the walk: they receive neither "wait" nor "abort", are dropped from the list and are never offered work again',
+    ) as r:
+        na = prog.nfunc('dawgie.pl.farm.notify_all')
+        rep.analysed(na)
+        walked = any(isinstance(x, (_ast.Name, _ast.Attribute)) and prog.resolve_in(x, na) == W for x in na.own_nodes())
+        if not walked:
+            raise AnalysisError('farm.notify_all no longer walks the idle-worker list')
+        per_hand = set()
+        for c in na.own_nodes():
+            if isinstance(c, _ast.Call) and isinstance(c.func, _ast.Attribute) and c.func.attr == 'notify':
+                per_hand.add('dawgie.pl.farm.Hand.notify')
+        if not per_hand:
+            raise AnalysisError('farm.notify_all no longer calls notify() on each hand')
+        reach = cg.reachable(sorted(per_hand), kinds={'direct'})
+        r.instance()
+        bad = []
+        for q in sorted(reach):
+            fn = prog.funcs.get(q)
+            if fn is None or not fn.module.name.startswith('dawgie.pl.farm'):
+                continue
+            for n in fn.own_nodes():
+                if isinstance(n, _ast.Call) and isinstance(n.func, _ast.Attribute) and n.func.attr in ('remove', 'pop', 'clear', 'append', 'insert', 'extend', 'sort') and isinstance(n.func.value, (_ast.Name, _ast.Attribute)) and prog.resolve_in(n.func.value, fn) == W:
+                    bad.append((fn, n))
+        r.check(
+            not bad,
+            'dawgie.pl.farm.Hand.notify:idle-list-untouched',
+            _where(bad[0][0], bad[0][1]) if bad else _where(prog.func('dawgie.pl.farm.Hand.notify')),
+            f'{len(reach)} functions reachable from Hand.notify, none changes _workers',
+            f'Hand.notify reaches {bad[0][0].qname if bad else ""} which changes the idle list ({_norm(bad[0][1])[:40] if bad else ""}) while notify_all is walking it: the next hand is skipped',
+        )
 
 
 def _rule7(ctx, rep):
@@ -3099,6 +3146,7 @@ _NOTIFY_IF = (
 )
 
 VARIANTS = [
+    V('notify drops the hand from the list itself', 'B', 'pl/farm.py', 'Hand.notify', 'self.transport.loseConnection()', 'self.transport.loseConnection()\n            self.connectionLost(None)', 'R-C11-9'),
     V('live revision switched while loading', 'B', 'pl/state.py', 'FSM._pipeline', 'dawgie.db.open()', 'dawgie.db.open()\n            dawgie.context.git_rev = dawgie.context._rev()', 'R-C11-8'),
     # ------------------------------------------------------------ R-C11-1 breaking
     V('hand listed before the revision test', 'B', _F, 'Hand._reg', _GATE, '_workers.append(self)\n        ' + _GATE, 'R-C11-1'),
